@@ -18,13 +18,13 @@ type Input struct {
 
 var accPool = []string{"world", "a", "b", "c", "d", "x:y", "cfg"}
 var assetPool = []string{"USD", "EUR", "COIN/2"}
-var amtPool = []string{"0", "1", "2", "3", "5", "7", "10", "10", "10", "20", "50", "50", "99", "100", "100", "101", "1000", "18446744073709551617", "340282366920938463463374607431768211456"}
-var balPool = []string{"0", "1", "5", "10", "50", "100", "100", "200", "1000", "1000", "5000", "18446744073709551621", "680564733841876926926749214863536422912", "-20", "-50"}
+var amtPool = []string{"0", "1", "2", "3", "5", "7", "10", "10", "10", "20", "50", "50", "99", "100", "100", "101", "1000", "100000000000000001", "9000000000000000000", "18446744073709551617", "340282366920938463463374607431768211456"}
+var balPool = []string{"0", "1", "5", "10", "50", "100", "100", "200", "1000", "1000", "5000", "9100000000000000000", "18446744073709551621", "680564733841876926926749214863536422912", "-20", "-50"}
 var keyPool = []string{"k", "src", "fee", "note"}
 
 var splits = [][]string{
 	{"1/2", "1/2"}, {"1/3", "2/3"}, {"1/4", "1/4", "1/2"}, {"10%", "90%"}, {"50%", "remaining"}, {"1/3", "1/3", "remaining"},
-	{"$p", "remaining"}, {"1/7", "2/7", "remaining"}, {"33.3%", "remaining"}, {"0%", "100%"}, {"remaining", "1/8"},
+	{"$p", "remaining"}, {"1/7", "2/7", "remaining"}, {"33.3%", "remaining"}, {"33.33%", "remaining"}, {"3333/10000", "6667/10000"}, {"0%", "100%"}, {"remaining", "1/8"},
 	{"1/3", "1/3", "1/3"}, {"$p", "1/10", "remaining"}, {"1/1"}, {"remaining"},
 }
 var badSplits = [][]string{
@@ -106,7 +106,7 @@ func (g *G) anyExpr() *Expr {
 	case 2:
 		return &Expr{K: "num", Text: g.pick(amtPool)}
 	case 3:
-		return &Expr{K: "str", Text: g.pick([]string{"hello", "a b", "", "x-1_y"})}
+		return &Expr{K: "str", Text: g.pick([]string{"hello", "a b", "a b", "", "x-1_y"})}
 	case 4:
 		if g.bad() {
 			return &Expr{K: "portion", Text: g.pick([]string{"3/2", "1/0", "101%"})}
